@@ -74,6 +74,8 @@ SUITE = {
     "C02": ("assembly", "K of Elastic / Thermal / Beam simulations symmetric at every Assembly"),
     "C03": ("assembly", "K, C, M, F of every Assembly equal the scatter-add of the element arrays built during that call"),
     "C04": ("bc", "after every solve of a problem type the solution carries the prescribed Dirichlet values"),
+    "C05": ("timestep", "after every solve under a time scheme the stored rates follow the documented scheme from the previous state and the new solution; equation of motion on the free dofs for the linear kinds"),
+    "C15": ("history", "every stored iteration keeps the digest it was saved with, verified at later Save_Iter / Set_Iter calls; the entry just saved holds the live primary fields"),
     "C11": ("law", "every freshly updated elastic law is symmetric, positive definite, C.S = I"),
     "C12": ("fearray", "FeArray @ / dot / ddot between two fields equal the per-point product at sampled points, result typed as a field"),
     "C14": ("stale", "matrices served from a simulation's cache equal those a deep copy told that everything changed assembles anew"),
